@@ -289,15 +289,35 @@ func runC05(c *Ctx) {
 		return isC && k == 1 && IsFieldLoad(b.X, "runAwaitHandle", "toWait")
 	}
 	// the decrement that stands for "all instance runs awaited" lives next to close(runRes); the per-case rules do not count it
-	closesRunRes := func(f *ssa.Function) bool {
+	// (a callee that decrements toWait itself is the all-finished function, not a helper of it)
+	hasToWaitDec := func(g *ssa.Function) bool {
+		has := false
+		EachInstr(g, func(in ssa.Instruction) {
+			if isToWaitDec(in) {
+				has = true
+			}
+		})
+		return has
+	}
+	var closesRunResD func(f *ssa.Function, depth int) bool
+	closesRunResD = func(f *ssa.Function, depth int) bool {
 		found := false
 		EachInstr(f, func(in ssa.Instruction) {
 			if IsBuiltinCall(in, "close") && DerivesOnly(CC(in).Args[0], false, IsFieldLoadPred("", "runRes")) {
 				found = true
 			}
+			// ... or in a helper of the handle called from here (assertNoRunResultLeft())
+			if cc := CC(in); cc != nil && depth < 2 && !found {
+				if _, isGo := in.(*ssa.Go); !isGo {
+					if g := cc.StaticCallee(); g != nil && g != f && PkgOf(g) == PkgOf(f) && len(g.Blocks) > 0 && !hasToWaitDec(g) {
+						found = closesRunResD(g, depth+1)
+					}
+				}
+			}
 		})
 		return found
 	}
+	closesRunRes := func(f *ssa.Function) bool { return closesRunResD(f, 0) }
 	isCaseToWaitDec := func(in ssa.Instruction) bool { return isToWaitDec(in) && !closesRunRes(in.Parent()) }
 	afAll := findAllFinished(c, "O5.3")
 	isCheckAll := func(in ssa.Instruction) bool {
